@@ -512,6 +512,25 @@ Definition offset_fetch_part (lk : Z * bytes * bool) (p : Z) : Z * Z * bytes * Z
 Definition offset_fetch (lookup : bytes -> bytes -> Z -> Z * bytes * bool) (g : bytes)
     (req : list (bytes * list Z)) : list (bytes * list (Z * Z * bytes * Z)) :=
   map (fun tp => (fst tp, map (fun p => offset_fetch_part (lookup g (fst tp) p) p) (snd tp))) req.
+(* GroupCoordinator.OffsetCommit (for a current member): the request names topics, each with
+   partitions carrying an offset and nullable metadata; every partition is committed on its
+   own, null metadata as "". *)
+Definition commit_req := list (bytes * list (Z * Z * option bytes)).
+Definition offset_commit_ops (g : bytes) (req : commit_req) : list op :=
+  flat_map (fun tp => map (fun e => let '(p, off, m) := e in
+                                     OCommit g (fst tp) p off (match m with Some x => x | None => [] end))
+                          (snd tp)) req.
+
+(* Environment limits of etcd (server defaults, also of the embedded server): a transaction
+   with more operations, or a request larger than this, is rejected as a whole. The store
+   code modelled here issues single-key Put/Get/Delete and one-operation prefix deletes
+   only, so neither limit is reachable from it; a model of code that batches operations
+   into one transaction must guard the batch with [etcd_txn_ok] / [etcd_request_ok]. *)
+Definition etcd_max_txn_ops : Z := 128.
+Definition etcd_max_request_bytes : Z := 1572864.
+Definition etcd_txn_ok (nops : Z) : bool := nops <=? etcd_max_txn_ops.
+Definition etcd_request_ok (nbytes : Z) : bool := nbytes <=? etcd_max_request_bytes.
+
 (* before the fix OffsetFetch forwarded the store's FetchConsumerOffset answer *)
 Definition offset_fetch_part_old (lk : Z * bytes * bool) (p : Z) : Z * Z * bytes * Z :=
   let '(o, m, _) := lk in (p, o, m, 0).
